@@ -3,6 +3,8 @@ package main
 import (
 	"fmt"
 	"os"
+	"runtime/debug"
+	"runtime/pprof"
 	"strings"
 )
 
@@ -55,19 +57,27 @@ func main() {
 			pos = append(pos, args[i])
 		}
 	}
+	if cp := flags["cpuprofile"]; cp != "" {
+		f, _ := os.Create(cp)
+		pprof.StartCPUProfile(f)
+		defer pprof.StopCPUProfile()
+	}
+	debug.SetGCPercent(400)
+	code := 0
+	defer func() { pprof.StopCPUProfile(); os.Exit(code) }()
 	switch os.Args[1] {
 	case "selftest":
-		os.Exit(cmdSelftest(flags))
+		code = cmdSelftest(flags)
 	case "check":
 		if len(pos) < 1 {
 			usage()
 		}
-		os.Exit(cmdCheck(pos[0], flags))
+		code = cmdCheck(pos[0], flags)
 	case "replay":
 		if len(pos) < 1 {
 			usage()
 		}
-		os.Exit(cmdReplay(pos[0], flags))
+		code = cmdReplay(pos[0], flags)
 	default:
 		usage()
 	}
